@@ -18,6 +18,7 @@ import NurbsVerif.Lemmas.HodographSurfAll
 import NurbsVerif.Lemmas.HodographWitness
 import NurbsVerif.Lemmas.RatCurveTrue
 import NurbsVerif.Lemmas.RatSurfTrue
+import NurbsVerif.Lemmas.UniqueLocal
 
 /-!
 # C02  Derivatives returned are the true derivatives of the shape  (statements so far)
@@ -71,6 +72,31 @@ theorem span_polynomial_is_the_curve (p : ℕ) (U : ℕ → F) (P : List (List F
   unfold spanPoly
   rw [eval_polP]
   simp only [eval_C]
+
+/-- **The span polynomial determines the active control points** (local uniqueness of B-spline coefficients):
+    on a non-empty span `κ` of a sorted knot function, two control nets with the same span polynomial in
+    coordinate `j` have the same `j`-th coordinate at each of the `p + 1` control points `κ - p .. κ` that are
+    active there.  (Induction on the degree: the derivative of the span polynomial is the span polynomial of
+    the scaled differences on the same span, `span_polynomial_derivative`.) -/
+theorem span_polynomial_determines_control_points (p : ℕ) (U : ℕ → F) (P P' : List (List F)) (κ j : ℕ)
+    (hm : Monotone U) (hspan : U κ < U (κ+1)) (hp : p ≤ κ) (h : spanPoly p U P κ j = spanPoly p U P' κ j)
+    (r : ℕ) (hr : r ≤ p) : (ptsGet P (κ - p + r)).getD j 0 = (ptsGet P' (κ - p + r)).getD j 0 :=
+  spanPoly_inj p U P P' κ j hm hspan hp h (κ - p + r) (by omega) (by omega)
+
+/-- … and the evaluated points on a non-empty span determine the span polynomial (a polynomial with
+    infinitely many zeros vanishes), hence the `p + 1` active control POINTS. -/
+theorem span_points_determine_control_points (p : ℕ) (U : ℕ → F) (P P' : List (List F)) (κ d : ℕ)
+    (hm : Monotone U) (hspan : U κ < U (κ+1)) (hp : p ≤ κ) (hκ : κ < P.length) (hκ' : κ < P'.length)
+    (hP : NetOk d P) (hP' : NetOk d P')
+    (h : ∀ u, U κ ≤ u → u < U (κ+1) → ∀ j, (curvePointAt p U P κ u).getD j 0 = (curvePointAt p U P' κ u).getD j 0) :
+    (∀ j, spanPoly p U P κ j = spanPoly p U P' κ j) ∧ ∀ r, r ≤ p → ptsGet P (κ - p + r) = ptsGet P' (κ - p + r) :=
+  ⟨fun j => spanPoly_eq_of_points p U P P' κ d j hspan hp hκ hκ' hP hP' (fun u h1 h2 => h u h1 h2 j),
+   fun r hr => active_points_eq_of_points p U P P' κ d hm hspan hp hκ hκ' hP hP' h r hr⟩
+
+/-- non-vacuity: a quadratic span and the two nets `[[0],[1],[3]]`, `[[0],[1],[4]]` – the span polynomials
+    differ (`x ↦ 2x + x²` against `2x + 2x²`; values at `1/2`) -/
+example : (curvePointAt 2 (fnOf ([0,0,0,1,1,1] : List ℚ)) [[0],[1],[3]] 2 (1/2)) = [5/4] ∧
+    (curvePointAt 2 (fnOf ([0,0,0,1,1,1] : List ℚ)) [[0],[1],[4]] 2 (1/2)) = [3/2] := by decide +kernel
 
 /-- **Rational curves (A4.2, the list model of `CurveEvaluatorRational.derivatives`)**: the returned
     vectors `C⁽⁰⁾ … C⁽ⁿ⁾` solve the Leibniz system `Σ_i C(k,i) · w⁽ⁱ⁾ · C⁽ᵏ⁻ⁱ⁾ = A⁽ᵏ⁾` of every order `k`, in
